@@ -1,133 +1,101 @@
 (* Sim.v — interpreter of API-operation histories over the library model (single-threaded part).
    A case = list of raw operations + oracle script + fault overlay; the result is the trace
-   (system calls, API results, handler invocations) that the C++ harness must reproduce on the same case. *)
-From SP Require Export BufferedModel.
+   (system calls, API results, handler invocations, futures, pool and driver state) that the C++ harness
+   (harness/sim.cpp) must reproduce on the same case. *)
+From SP Require Export DriverModel.
 Local Open Scope Z_scope.
 
-(* ---- object tables --------------------------------------------------------------------------- *)
-Record sock := {
-  s_fd : Z;
-  s_kind : Z;            (* 1 TCP, 2 UDP, 3 acceptor *)
-  s_open : bool;
-  s_buffered : bool;
-  s_rxsize : Z;
-  s_pool : pool
-}.
+Definition new_sock (fd kind : Z) : sock :=
+  {| s_fd := fd; s_kind := kind; s_open := true; s_buffered := false; s_rxsize := 0; s_pool := dummy_pool;
+     s_async := false; s_peer := 0; s_sendq := []; s_h1 := 0; s_h2 := 0 |}.
 
-Record ext := {
-  x_pools : list (Z * pool);          (* user pools by key *)
-  x_socks : list (Z * sock);          (* sockets by key *)
-  x_names : list (Z * Z)              (* buffers (owner, id) in order of first appearance: name = index *)
-}.
-
-Definition ext_init : ext := {| x_pools := []; x_socks := []; x_names := [] |}.
-
-Section Assoc.
-Context {V : Type}.
-Fixpoint aget (k : Z) (l : list (Z * V)) : option V :=
-  match l with [] => None | (k', v) :: t => if k' =? k then Some v else aget k t end.
-Fixpoint aset (k : Z) (v : V) (l : list (Z * V)) : list (Z * V) :=
-  match l with
-  | [] => [(k, v)]
-  | (k', v') :: t => if k' =? k then (k, v) :: t else (k', v') :: aset k v t
-  end.
-End Assoc.
-
-Definition dummy_pool : pool := {| p_max := 0; p_idle := []; p_busy := []; p_next := 0 |}.
-
-(* owner keys: user pool p -> p; pool of socket s -> 1000 + s *)
-Definition owner_pool (x : ext) (owner : Z) : pool :=
-  if owner <? 1000 then match aget owner (x_pools x) with Some p => p | None => dummy_pool end
-  else match aget (owner - 1000) (x_socks x) with Some s => s_pool s | None => dummy_pool end.
-
-Definition set_owner_pool (owner : Z) (x : ext) (p : pool) : ext :=
-  if owner <? 1000 then {| x_pools := aset owner p (x_pools x); x_socks := x_socks x; x_names := x_names x |}
-  else match aget (owner - 1000) (x_socks x) with
-       | Some s => {| x_pools := x_pools x;
-                      x_socks := aset (owner - 1000)
-                                   {| s_fd := s_fd s; s_kind := s_kind s; s_open := s_open s;
-                                      s_buffered := s_buffered s; s_rxsize := s_rxsize s; s_pool := p |} (x_socks x);
-                      x_names := x_names x |}
-       | None => x
-       end.
-
-Fixpoint find_name (o i : Z) (l : list (Z * Z)) (idx : Z) : option Z :=
-  match l with
-  | [] => None
-  | (o', i') :: t => if (o' =? o) && (i' =? i) then Some idx else find_name o i t (idx + 1)
-  end.
-
-Local Notation M := (M ext).
-
-(* name of buffer (owner, id): index of first appearance (registered on demand) *)
-Definition name_of (owner id : Z) : M Z :=
-  x <- get_ext ;;
-  match find_name owner id (x_names x) 0 with
-  | Some n => ret n
-  | None => put_ext {| x_pools := x_pools x; x_socks := x_socks x; x_names := x_names x ++ [(owner, id)] |} ;;;
-            ret (Z.of_nat (length (x_names x)))
-  end.
-
-Definition buffer_of_name (name : Z) : M (Z * Z) :=
-  x <- get_ext ;;
-  match nth_error (x_names x) (Z.to_nat name) with
-  | Some oi => ret oi
-  | None => bad 101
-  end.
-
-Definition get_sock (k : Z) : M sock :=
-  x <- get_ext ;; match aget k (x_socks x) with Some s => ret s | None => bad 102 end.
-
-Definition put_sock (k : Z) (s : sock) : M unit :=
-  x <- get_ext ;; put_ext {| x_pools := x_pools x; x_socks := aset k s (x_socks x); x_names := x_names x |}.
-
-Definition open_sock (k kind : Z) : M sock :=
+Definition open_sock (k kind : Z) : MX sock :=
   s <- get_sock k ;;
   if s_open s && (s_kind s =? kind) then ret s else bad 103.
 
-(* ---- trace of API-level results -------------------------------------------------------------- *)
-Definition K_RET := 20.        (* [opcode; 1; results...] or [opcode; 0; exception code...] *)
-
-Definition report_ok (opc : Z) (vals : list Z) : M unit := emit K_RET (opc :: 1 :: vals).
-
-(* run an API call; a C++ exception is what the caller observes: record it *)
-Definition api (opc : Z) (m : M (list Z)) : M unit :=
-  catch (vals <- m ;; report_ok opc vals)
-        (fun e => emit K_RET (opc :: 0 :: exn_code e)).
-
-Definition new_sock (fd kind : Z) : sock :=
-  {| s_fd := fd; s_kind := kind; s_open := true; s_buffered := false; s_rxsize := 0; s_pool := dummy_pool |}.
-
-Definition is_busy (id : Z) (l : list buf) : bool := existsb (fun b => b_id b =? id) l.
-
 Definition capok (reserve cap : Z) : Z := if reserve <=? cap then 1 else 0.
 
-(* ---- operations ------------------------------------------------------------------------------- *)
-Definition run_op (r : raw) : M unit :=
+(* wrap into the buffered variant: SocketBufferedImpl(sock, count, size); the moved-in socket is closed if
+   determining the receive buffer size fails *)
+Definition make_buffered (k count size : Z) : MX Z :=
+  s <- get_sock k ;;
+  rx <- (if size =? 0
+         then catch (check_setup S_GETSOCKOPT (s_fd s) ;;; ret RCVBUF_DEFAULT)
+                    (fun e => sys_close (s_fd s) ;;; put_sock k (s <| s_open := false |>) ;;; throw e)
+         else ret size) ;;
+  put_sock k (s <| s_buffered := true |> <| s_rxsize := rx |> <| s_pool := pool_new 0 count rx |>) ;;;
+  ret rx.
+
+(* break the promises of queued sends and hand their buffers back (destruction of the send queue) *)
+Fixpoint drop_sendq (q : list (Z * Z * Z * Z)) : MX unit :=
+  match q with
+  | [] => ret tt
+  | (f, owner, id, _) :: t => resolve f 3 [] ;;; release_if_held owner id ;;; drop_sendq t
+  end.
+
+(* destructor of any socket object *)
+Definition destroy_sock (k : Z) : MX unit :=
+  s <- get_sock k ;;
+  if negb (s_open s) then ret tt else
+  (if s_async s then async_unregister k (s_fd s) ;;; drop_sendq (s_sendq s) else ret tt) ;;;
+  sys_close (s_fd s) ;;;
+  upd_sock k (fun s => s <| s_open := false |> <| s_sendq := [] |>).
+
+(* SocketTcpAsync / SocketUdpAsync / AcceptorAsync constructors over socket k *)
+Definition make_async (k h1 h2 : Z) : MX unit :=
+  s <- get_sock k ;;
+  if s_kind s =? 1 then
+    (* TCP: cache the peer address (getpeername) before registering; the moved-in socket dies if that fails *)
+    e <- sys_setup S_GETPEERNAME (s_fd s) ;;
+    if negb (e =? 0) then sys_close (s_fd s) ;;; put_sock k (s <| s_open := false |>) ;;; throw (SysErr e)
+    else put_sock k (s <| s_async := true |> <| s_h1 := h1 |> <| s_h2 := h2 |>) ;;;
+         async_register k (s_fd s)
+  else if s_kind s =? 2 then
+    put_sock k (s <| s_async := true |> <| s_h1 := h1 |> <| s_h2 := h2 |>) ;;; async_register k (s_fd s)
+  else
+    (* acceptor: buffered impl without receive buffers, register, then listen; unregister + close if listen fails *)
+    put_sock k (s <| s_async := true |> <| s_h1 := h1 |> <| s_buffered := true |> <| s_rxsize := 1 |>
+                  <| s_pool := pool_new 0 0 1 |>) ;;;
+    async_register k (s_fd s) ;;;
+    catch (check_setup S_LISTEN (s_fd s)) (fun e => destroy_sock k ;;; throw e).
+
+(* SocketTcpAsync::Send(buffer) / SocketUdpAsync::SendTo(buffer, dst): buffer obtained from user pool p *)
+Definition async_send (k p size dst : Z) : MX (list Z) :=
+  s <- get_sock k ;;
+  b <- pget p ;;
+  presize p (b_id b) size ;;;
+  _ <- name_of p (b_id b) ;;
+  f <- new_future ;;
+  let was_empty := match s_sendq s with [] => true | _ => false end in
+  upd_sock k (fun s => s <| s_sendq := s_sendq s ++ [(f, p, b_id b, dst)] |>) ;;;
+  (if was_empty then async_want_send (s_fd s) else ret tt) ;;;
+  ret [f].
+
+Definition drv_alive : MX driver := d <- get_driver ;; if d_alive d then ret d else bad 130.
+
+(* ---- operations that may appear at top level and inside blocks (tasks / handlers) ----------------------- *)
+Definition run_simple_op (r : raw) : MX unit :=
   let '(opc, a) := r in
-  let a0 := nthZ a 0 in let a1 := nthZ a 1 in let a2 := nthZ a 2 in let a3 := nthZ a 3 in
+  let a0 := nthZ a 0 in let a1 := nthZ a 1 in let a2 := nthZ a 2 in let a3 := nthZ a 3 in let a4 := nthZ a 4 in
   match opc with
   (* 10 POOL_NEW p n reserve *)
-  | 10 => x <- get_ext ;;
-          put_ext {| x_pools := aset a0 (pool_new 0 a1 a2) (x_pools x); x_socks := x_socks x; x_names := x_names x |} ;;;
-          report_ok opc []
+  | 10 => x <- get_ext ;; put_ext (x <| x_pools := aset a0 (pool_new 0 a1 a2) (x_pools x) |>) ;;; report_ok opc []
   (* 11 POOL_GET p reserve  -> name size capok *)
-  | 11 => api opc (b <- pool_get_m (fun x => owner_pool x a0) (set_owner_pool a0) ;;
-                   n <- name_of a0 (b_id b) ;; ret [n; b_size b; capok a1 (b_cap b)])
+  | 11 => api opc (b <- pget a0 ;; n <- name_of a0 (b_id b) ;; ret [n; b_size b; capok a1 (b_cap b)])
   (* 12 BUF_RELEASE name : drop the BufferPtr if the user still holds it (no-op otherwise, also for unknown names) *)
   | 12 => api opc (x <- get_ext ;;
                    match nth_error (x_names x) (Z.to_nat a0) with
-                   | Some oi =>
-                       if (0 <=? a0) && is_busy (snd oi) (p_busy (owner_pool x (fst oi)))
-                       then pool_recycle_m (fun x => owner_pool x (fst oi)) (set_owner_pool (fst oi)) (snd oi) ;;; ret []
-                       else ret []
+                   | Some oi => (if 0 <=? a0 then release_if_held (fst oi) (snd oi) else ret tt) ;;; ret []
                    | None => ret []
                    end)
   (* 13 BUF_RESIZE name n : the user resizes a buffer it holds *)
-  | 13 => api opc (oi <- buffer_of_name a0 ;;
-                   pool_resize_m (fun x => owner_pool x (fst oi)) (set_owner_pool (fst oi)) (snd oi) a1 ;;; ret [])
+  | 13 => api opc (x <- get_ext ;;
+                   match nth_error (x_names x) (Z.to_nat a0) with
+                   | Some oi => (if 0 <=? a0 then presize (fst oi) (snd oi) a1 else ret tt) ;;; ret []
+                   | None => ret []
+                   end)
   (* 20 TCP_NEW s / 21 UDP_NEW s / 22 ACC_NEW s *)
-  | 20 => api opc (fd <- tcp_client_new ;; put_sock a0 (new_sock fd 1) ;;; ret [])
+  | 20 => api opc (fd <- tcp_client_new ;; put_sock a0 (new_sock fd 1 <| s_peer := 100 + a0 |>) ;;; ret [])
   | 21 => api opc (fd <- udp_new ;; put_sock a0 (new_sock fd 2) ;;; ret [])
   | 22 => api opc (fd <- acceptor_new ;; put_sock a0 (new_sock fd 3) ;;; ret [])
   (* 23 TCP_SEND s size timeout -> n *)
@@ -145,30 +113,14 @@ Definition run_op (r : raw) : M unit :=
   | 27 => s <- open_sock a0 3 ;;
           api opc (r <- acceptor_listen (s_fd s) a1 ;;
                    match r with
-                   | Some (cfd, peer) => put_sock a2 (new_sock cfd 1) ;;; ret [1; peer]
+                   | Some (cfd, peer) => put_sock a2 (new_sock cfd 1 <| s_peer := peer |>) ;;; ret [1; peer]
                    | None => ret [0]
                    end)
-  (* 28 DESTROY s : close the descriptor (buffers must have been released by the case) *)
-  | 28 => s <- get_sock a0 ;;
-          (if s_open s then sys_close (s_fd s) else ret tt) ;;;
-          put_sock a0 {| s_fd := s_fd s; s_kind := s_kind s; s_open := false; s_buffered := s_buffered s;
-                         s_rxsize := s_rxsize s; s_pool := s_pool s |} ;;;
-          report_ok opc []
+  (* 28 DESTROY s *)
+  | 28 => api opc (destroy_sock a0 ;;; ret [])
   (* 30 BUFFERED_NEW s count size : wrap socket s (TCP or UDP) into its buffered variant *)
   | 30 => s <- get_sock a0 ;;
-          if negb (s_open s) then bad 104 else
-          api opc (
-            (* moved-in socket is closed if determining the buffer size fails *)
-            rx <- (if a2 =? 0
-                   then catch (check_setup S_GETSOCKOPT (s_fd s) ;;; ret RCVBUF_DEFAULT)
-                              (fun e => sys_close (s_fd s) ;;;
-                                        put_sock a0 {| s_fd := s_fd s; s_kind := s_kind s; s_open := false;
-                                                       s_buffered := false; s_rxsize := 0; s_pool := s_pool s |} ;;;
-                                        throw e)
-                   else ret a2) ;;
-            put_sock a0 {| s_fd := s_fd s; s_kind := s_kind s; s_open := true; s_buffered := true;
-                           s_rxsize := rx; s_pool := pool_new 0 a1 rx |} ;;;
-            ret [rx])
+          if negb (s_open s) then bad 104 else api opc (rx <- make_buffered a0 a1 a2 ;; ret [rx])
   (* 32 BUF_RECV s timeout -> name size | -1 *)
   | 32 => s <- open_sock a0 1 ;;
           api opc (r <- buffered_receive (fun x => owner_pool x (1000 + a0)) (set_owner_pool (1000 + a0))
@@ -185,13 +137,127 @@ Definition run_op (r : raw) : M unit :=
                    | Some (id, n, src) => nm <- name_of (1000 + a0) id ;; ret [nm; n; src]
                    | None => ret [-1]
                    end)
+  (* 43 STOP *)
+  | 43 => _ <- drv_alive ;; api opc (stop ;;; ret [])
+  (* 50 TODO_NEW id kind value block *)
+  | 50 => _ <- drv_alive ;; api opc (todo_new a0 a1 a2 a3 ;;; ret [])
+  (* 51 TODO_SHIFT id kind value / 52 TODO_CANCEL id *)
+  | 51 => t <- get_todo a0 ;; if to_handle t then api opc (todo_shift a0 a1 a2 ;;; ret []) else bad 121
+  | 52 => t <- get_todo a0 ;; if to_handle t then api opc (todo_cancel a0 ;;; ret []) else bad 121
+  (* 53 TODO_DROP id : the handle goes away; the task stays scheduled *)
+  | 53 => t <- get_todo a0 ;; put_todo a0 (t <| to_handle := false |>) ;;; report_ok opc []
+  (* 60 ASYNC_NEW s h1 h2 : SocketTcpAsync / SocketUdpAsync over buffered socket s, AcceptorAsync over acceptor s *)
+  | 60 => s <- get_sock a0 ;; _ <- drv_alive ;;
+          if negb (s_open s) || s_async s then bad 105 else api opc (make_async a0 a1 a2 ;;; ret [])
+  (* 61 ASYNC_SEND s p size -> future / 62 ASYNC_SENDTO s p size dst -> future *)
+  | 61 => s <- open_sock a0 1 ;; if negb (s_async s) then bad 106 else api opc (async_send a0 a1 a2 0)
+  | 62 => s <- open_sock a0 2 ;; if negb (s_async s) then bad 106 else api opc (async_send a0 a1 a2 a3)
+  (* 63 ADOPT news count size h1 h2 : inside a connect handler — wrap the accepted socket into an async TCP socket *)
+  | 63 => x <- get_ext ;;
+          match x_acc x with
+          | None => report_ok opc [0]
+          | Some (cfd, peer) =>
+              put_ext (x <| x_acc := None |>) ;;;
+              put_sock a0 (new_sock cfd 1 <| s_peer := peer |>) ;;;
+              api opc (_ <- make_buffered a0 a1 a2 ;; make_async a0 a3 a4 ;;; ret [1])
+          end
+  (* 64 HOLD : inside a receive handler — keep the buffer *)
+  | 64 => x <- get_ext ;; put_ext (x <| x_arg := None |>) ;;; report_ok opc []
+  (* 95 THROW kind : the running task / handler throws (1 std::runtime_error, 2 std::logic_error) *)
+  | 95 => if a0 =? 1 then throw (SysErr 0) else throw (LogicErr 99)
   | _ => bad 100
   end.
 
-Fixpoint run_ops (ops : list raw) : M unit :=
+Fixpoint run_block_ops (ops : list raw) : MX unit :=
+  match ops with
+  | [] => ret tt
+  | o :: t => run_simple_op o ;;; run_block_ops t
+  end.
+
+Definition run_block (b : Z) : MX unit :=
+  x <- get_ext ;;
+  match aget b (x_blocks x) with
+  | Some ops => run_block_ops ops
+  | None => ret tt
+  end.
+
+(* state reports after every top-level operation *)
+Fixpoint report_futures (l : list (Z * fut)) : MX unit :=
+  match l with
+  | [] => ret tt
+  | (f, ft) :: t =>
+      (if negb (f_state ft =? f_reported ft)
+       then emit K_FUTURE (f :: f_state ft :: f_code ft) ;;;
+            x <- get_ext ;; put_ext (x <| x_futs := aset f (ft <| f_reported := f_state ft |>) (x_futs x) |>)
+       else ret tt) ;;;
+      report_futures t
+  end.
+
+Fixpoint report_pools (l : list (Z * pool)) : MX unit :=
+  match l with
+  | [] => ret tt
+  | (p, pl) :: t => emit K_POOL [p; Z.of_nat (length (p_busy pl))] ;;; report_pools t
+  end.
+
+Fixpoint report_sock_pools (l : list (Z * sock)) : MX unit :=
+  match l with
+  | [] => ret tt
+  | (k, s) :: t => (if s_open s && s_buffered s && negb (s_kind s =? 3)
+                    then emit K_POOL [1000 + k; Z.of_nat (length (p_busy (s_pool s)))] else ret tt) ;;;
+                   report_sock_pools t
+  end.
+
+Fixpoint flatten_pairs (l : list (Z * Z)) : list Z :=
+  match l with [] => [] | (a, b) :: t => a :: b :: flatten_pairs t end.
+
+Definition report_state : MX unit :=
+  x <- get_ext ;;
+  report_futures (x_futs x) ;;;
+  report_pools (x_pools x) ;;;
+  report_sock_pools (x_socks x) ;;;
+  (if d_alive (x_driver x)
+   then emit K_PFDS (flatten_pairs (d_pfds (x_driver x))) ;;; emit K_TODOS (flatten_pairs (d_todos (x_driver x)))
+   else ret tt).
+
+(* destruction of the driver: pending ToDos are released, the signalling pipe is closed *)
+Definition driver_destroy : MX unit :=
+  d <- get_driver ;;
+  if d_alive d then
+    put_driver (d <| d_alive := false |> <| d_todos := [] |> <| d_socks := [] |> <| d_pfds := [] |>) ;;;
+    sys_close (d_to d) ;;; sys_close (d_from d)
+  else ret tt.
+
+Definition run_op (r : raw) : MX unit :=
+  let '(opc, a) := r in
+  let a0 := nthZ a 0 in
+  (match opc with
+   (* 40 DRIVER_NEW / 41 STEP timeout / 42 RUN / 44 DRIVER_DESTROY *)
+   | 40 => api opc (driver_new ;;; ret [])
+   | 41 => _ <- drv_alive ;; api opc (step run_block a0 ;;; ret [])
+   | 42 => _ <- drv_alive ;; api opc (run run_block ;;; ret [])
+   | 44 => api opc (driver_destroy ;;; ret [])
+   | _ => run_simple_op r
+   end) ;;;
+  report_state.
+
+Fixpoint run_ops (ops : list raw) : MX unit :=
   match ops with
   | [] => ret tt
   | o :: t => run_op o ;;; run_ops t
+  end.
+
+(* blocks are defined by the operations  1 BEGIN b ... 2 END  at top level *)
+Fixpoint split_blocks (ops : list raw) (cur : option (Z * list raw)) (blocks : list (Z * list raw)) (top : list raw)
+  : list (Z * list raw) * list raw :=
+  match ops with
+  | [] => (blocks, rev top)
+  | (c, a) :: t =>
+      match cur with
+      | None => if c =? 1 then split_blocks t (Some (nthZ a 0, [])) blocks top
+                else split_blocks t None blocks ((c, a) :: top)
+      | Some (b, acc) => if c =? 2 then split_blocks t None (aset b (rev acc) blocks) top
+                         else split_blocks t (Some (b, (c, a) :: acc)) blocks top
+      end
   end.
 
 Fixpoint decode_script (l : list raw) : option (list ev) :=
@@ -203,15 +269,17 @@ Fixpoint decode_script (l : list raw) : option (list ev) :=
               end
   end.
 
-(* final marker: [0] completed; [1; why] script does not fit; [2; ub] undefined behaviour reached;
-   [3; ..] exception escaped (cannot happen: every op catches) ; last entry [unused script events] *)
+(* final marker: [0;0;left] completed; [1;why;left] script does not fit / malformed case; [2;ub;left] undefined
+   behaviour reached; [3;..] exception escaped (cannot happen: every op catches); left = unused script events *)
 Definition K_END := 99.
 
 Definition run_case (ops : list raw) (script : list raw) (faults : list (Z * Z)) : list raw :=
   match decode_script script with
   | None => [(K_END, [1; 0; 0])]
   | Some sc =>
-      let '(r, s) := run_ops ops (os_init ext_init sc faults) in
+      let '(blocks, top) := split_blocks ops None [] [] in
+      let x0 := ext_init <| x_blocks := blocks |> in
+      let '(r, s) := run_ops top (os_init x0 sc faults) in
       let left := Z.of_nat (length (o_script s)) in
       let fin := match r with
                  | Ok _ => [0; 0; left]
